@@ -12,17 +12,18 @@ _memo = {}
 # feed each other); a failing obligation of a rule is a violation only of the properties listed for it.
 AUDIT_CLAIMS = {
     # every written byte is a guarded literal / validated escape / %XX, escapes decoded only under safe and not protected
-    "EM-PYQ": "C01 C02 C03 C04 C05 C12", "EM-CQ": "C01 C02 C03 C04 C05 C12",
-    "EM-PYQ-RETURN": "C01 C02 C03 C04 C05 C12", "EM-CQ-RETURN": "C01 C02 C03 C04 C05 C12",
+    "EM-PYQ": "C01 C02 C03 C04 C05 C06 C12", "EM-CQ": "C01 C02 C03 C04 C05 C06 C12",
+    "EM-PYQ-RETURN": "C01 C02 C03 C04 C05 C06 C12", "EM-CQ-RETURN": "C01 C02 C03 C04 C05 C06 C12",
     # no input unit is skipped or consumed twice: the decoded value is preserved
-    "EM-PYQ-PROGRESS": "C02 C04 C05 C12", "EM-CQ-PROGRESS": "C02 C04 C05 C12",
+    "EM-PYQ-PROGRESS": "C02 C04 C05 C06 C12", "EM-CQ-PROGRESS": "C02 C04 C05 C06 C12",
     "EM-PYQ-REWIND": "C01 C02 C04 C05", "EM-PYQ-WINDOW": "C01 C02 C04 C05", "EM-CQ-ADVANCE": "C01 C02 C04 C05",
-    # the bytes written for a code point are its UTF-8 encoding (surrogates: what the sibling does)
-    "EM-UTF8": "C02 C05 C12", "EM-UTF8-SURR": "C05",
+    # the bytes written for a code point are its UTF-8 encoding; only surrogates are written as nothing (EM-UTF8-DROP),
+    # and all of them are, as in the sibling (EM-UTF8-SURR)
+    "EM-UTF8": "C02 C05 C06 C12", "EM-UTF8-DROP": "C02 C05 C06 C12", "EM-UTF8-SURR": "C05",
     # the `changed` flag: lower-case escapes are re-emitted upper-case, dropped units are noticed
     "CH1": "C01 C05", "CH2": "C01 C05",
     # the identity fast path is taken only for text made of literal-safe characters
-    "CH1-SKIP": "C01 C02 C05 C12",
+    "CH1-SKIP": "C01 C02 C05 C06 C12",
     # the hex digit encoder is upper-case; the decoder accepts exactly the hex digits
     "T13": "C01 C03 C04 C05", "T14": "C01 C02 C04 C05 C06",
     "LA": "C01 C03 C05 C06 C19",
@@ -61,3 +62,25 @@ def table_checks(ctx, pols, cfgs, parts):
             tables.check_policy(ctx, backend, name, cfgs[name][1], pol, parts)
         if "stable" in parts:
             tables.check_fixpoint(ctx, backend, byname)
+
+
+PATH_FUNCS = {"with_path", "with_name", "with_suffix", "_with_raw_name", "joinpath", "__truediv__", "_make_child", "parent", "raw_parts",
+              "parts", "raw_name", "name", "raw_suffix", "suffix", "raw_suffixes", "suffixes", "raw_path", "path", "path_safe"}
+
+
+def claim_in(ctx, rules, pred, why):
+    """The K rules look at every function of the package; a property whose statement is about some of them claims a
+    finding only there (a double-quoted password is C02/C11's, not the path algebra's)."""
+    sc = getattr(ctx, "scope", None) or {}
+    for r in rules:
+        sc[r] = (pred, why)
+    ctx.scope = sc
+
+
+def path_function(q):
+    return q.startswith("_path.") or (q.startswith("_url.URL.") and q.rsplit(".", 1)[1] in PATH_FUNCS) or q in ("_url.URL.join",)
+
+
+def constructor_function(q):
+    return q in ("_url.encode_url", "_url.pre_encoded_url", "_url.URL.__new__", "_url.from_parts", "_url.from_parts_uncached") or \
+        q.startswith("_parse.split_")
